@@ -26,6 +26,11 @@ Proof.
   destruct fr as [|y fr]; [cbn in H; lia|]. cbn [skipn length] in *. apply IH. lia.
 Qed.
 
+Lemma add11 : forall x, x + 1 + 1 = x + 2. Proof. intros; lia. Qed.
+Lemma add111 : forall x, x + 1 + 1 + 1 = x + 3. Proof. intros; lia. Qed.
+Lemma add1m2 : forall x, x + 1 + -2 = x - 1. Proof. intros; lia. Qed.
+Lemma add11m3 : forall x, x + 1 + 1 + -3 = x - 1. Proof. intros; lia. Qed.
+
 Lemma ddepths_nil : forall dos, ddepths dos = [] -> dos = [].
 Proof. intros dos H. destruct dos; [reflexivity|discriminate]. Qed.
 
@@ -222,11 +227,11 @@ Section Machine.
     Lemma dos_len_ge : s_dd sw <= zlen (m_dos m).
     Proof.
       destruct (top_facts _ _ _ _ Hinv Hfr) as [sw' [seg' [Hw' [_ [_ [Hs [Hct [_ [_ Hch]]]]]]]]].
-      rewrite Hw in Hw'. inv Hw'. destruct Hct as [F _].
-      destruct (frames_ok_top _ _ _ _ _ _ F) as [sw2 [Hw2 [_ [_ [H3 _]]]]]. rewrite Hw in Hw2. inv Hw2.
-      rewrite (chain_ok_below _ _ _ (zlen fr + 1 + 1) Hch) in * by lia.
-      pose proof (below_mono (ddepths (m_dos m)) (zlen fr + 1) (zlen fr + 1 + 1) ltac:(lia)).
-      rewrite (chain_ok_below _ _ _ (zlen fr + 1 + 1) Hch) in * by lia. rewrite ddepths_len in *. lia.
+      assert (sw' = sw) by congruence; subst sw'. destruct Hct as [F _].
+      destruct (frames_ok_top _ _ _ _ _ _ F) as [sw2 [Hw2 [_ [_ [H3 _]]]]]. assert (sw2 = sw) by congruence; subst sw2.
+      pose proof (below_mono (ddepths (m_dos m)) (zlen fr + 1) (zlen fr + 1 + 1) ltac:(lia)) as Hmono.
+      rewrite (chain_ok_below _ _ _ (zlen fr + 1 + 1) Hch) in Hmono by lia. rewrite ddepths_len in Hmono.
+      clear - H3 Hmono. lia.
     Qed.
 
     Lemma index_good : forall k m', like m' (ip + 1) -> memz (ip + 1) (s_B sw) = true -> Z.of_nat k + 1 <= s_dd sw ->
@@ -234,9 +239,9 @@ Section Machine.
             else stop m' E_overflow).
     Proof.
       intros k m' L Hb Hk. destruct (can_push p m'); [|eapply like_stop; [eassumption|discriminate]].
-      pose proof dos_len_ge as Hl. unfold do_index. destruct L as [A [B L']]. rewrite B.
+      pose proof dos_len_ge as Hl. unfold do_index. pose proof L as [A [B _]]. rewrite B.
       destruct (nth_error (m_dos m) k) as [[[dd ds] di]|] eqn:En.
-      - eapply like_gres; [repeat split; try eassumption; apply L'| eassumption |apply push_ds].
+      - eapply like_gres; [exact L|exact Hb|apply push_ds].
       - apply nth_error_None in En. unfold zlen in Hl. lia.
     Qed.
 
@@ -246,18 +251,19 @@ Section Machine.
       intros single bc Hb Hbc. pose proof (boundary_instr _ _ _ _ Hck Hb Hbc) as Hci.
       pose proof like_m1 as L1. set (m1 := set_frames m ((w, ip + 1) :: fr)) in *.
       destruct (top_facts _ _ _ _ Hinv Hfr) as [sw' [seg' [Hw' [_ [_ [Hs [Hct [_ [Hnx Hch]]]]]]]]].
-      rewrite Hw in Hw'. inv Hw'.
+      assert (sw' = sw) by congruence; subst sw'.
       unfold check_instr in Hci. unfold exec_op. cbv zeta in Hci.
       destruct (bc <? 0) eqn:Eneg.
       { (* typed reads *)
         bsplit. unfold cell_is in H. destruct (znth seg (ip + 1)) as [inp|] eqn:Einp; [|discriminate].
         rewrite exec_read_unfold. destruct (like_fetch _ _ _ L1 Einp) as [m2 [Hf2 L2]]. rewrite Hf2.
-        replace (ip + 1 + 1) with (ip + 2) in * by lia.
+        rewrite add11 in *.
         assert (Hrb : forall n m', like m' (ip + 2) -> good (read_body p e bc inp n m')).
         { intros n m' L'. pose proof L' as [A [B [C [D E]]]].
-          eapply (good_rres m'); [| congruence |].
-          2: { eapply read_body_rres; try eassumption. congruence. }
-          eapply like_inv; [|eassumption]. repeat split; try eassumption. }
+          assert (Hs' : shape_ok p e m' = true) by congruence.
+          eapply good_rres; [| |eapply (read_body_rres p e m' w (ip + 2) fr seg bc inp n); eassumption].
+          - eapply like_inv; [|eassumption]. split; [reflexivity|]. split; [exact B|]. split; [exact C|]. split; [exact D|exact E].
+          - congruence. }
         destruct (negb (Z.land (- bc - 1) READ_REPEATED =? 0)).
         - destruct (m_stack m2) as [|n s]; [eapply like_stop; [eassumption|discriminate]|].
           apply Hrb. apply like_stack. assumption.
@@ -267,7 +273,7 @@ Section Machine.
       destruct (bc =? CODE_EXIT) eqn:Eexit.
       { (* exit: no do-loop is active *)
         bsplit. unfold cell_is in H. destruct (znth seg (ip + 1)) as [k|] eqn:Ek; [|discriminate].
-        assert (k = s_ed sw') by lia. subst k.
+        assert (k = s_ed sw) by (clear - H; lia). subst k.
         assert (Hdl : ddepths (m_dos m) = []).
         { eapply chain_nodo; [eassumption|assumption|]. destruct Hnx as [Hnx|Hnx]; [assumption|]. rewrite Hnx in H1. discriminate. }
         pose proof (ddepths_nil _ Hdl) as Hdos.
@@ -275,10 +281,10 @@ Section Machine.
         rewrite andb_false_r. unfold exec_exit.
         destruct (like_fetch _ _ _ L1 Ek) as [m2 [Hf2 L2]]. rewrite Hf2. destruct L2 as [A [B [C [D E]]]].
         unfold depth. rewrite A, zlen_cons.
-        replace ((s_ed sw' <? 0) || (zlen fr + 1 <? s_ed sw')) with false by lia.
-        destruct (skipn_cons_tl _ (Z.to_nat (s_ed sw')) (w, ip + 1 + 1) fr) as [f Hf]; [unfold zlen in Hle; lia|].
+        assert (Hf0 : (s_ed sw <? 0) || (zlen fr + 1 <? s_ed sw) = false) by (clear - Hle; lia). rewrite Hf0.
+        destruct (skipn_cons_tl _ (Z.to_nat (s_ed sw)) (w, ip + 1 + 1) fr) as [f Hf]; [clear - Hle; unfold zlen in Hle; lia|].
         unfold pop_incr. cbn [m_frames set_frames set_dos m_dos]. rewrite Hf. cbn [m_dos set_frames set_dos].
-        rewrite B, Hdos. cbn [drop_dos]. cbn. split; [congruence|]. intros _. apply inv_mk; [cbn; congruence|].
+        rewrite B, Hdos. cbn [drop_dos]. cbn. split; [congruence|]. intros _. apply inv_mk; [rewrite <- Hs, <- E; reflexivity|].
         cbn [m_frames m_dos m_targets m_ready set_frames set_dos]. rewrite C, D. exact Hct'. }
       unfold exec_builtin. cbv zeta.
       destruct (bc =? CODE_LITERAL) eqn:E0.
@@ -286,7 +292,7 @@ Section Machine.
         destruct (znth seg (ip + 1)) as [a|] eqn:Ea; [|discriminate]. destruct L1 as [A L1'].
         pose proof (builtin_arg_gres p e m1 w (ip + 1) fr seg a CODE_LITERAL A Hsg Ea Hs (or_introl eq_refl)) as G.
         unfold exec_builtin in G. cbv zeta in G. rewrite E0 in G.
-        eapply like_gres; [|exact H0|exact G]. replace (ip + 2) with (ip + 1 + 1) by lia. repeat split; reflexivity. }
+        eapply like_gres; [|exact H0|exact G]. rewrite <- add11. repeat split; reflexivity. }
       destruct (bc =? CODE_HALT) eqn:E1.
       { cbn. split; [|intros [Hx|Hx]; discriminate].
         pose proof (rev_nonempty _ Hne) as Hr. destruct (rev (m_targets m)); [contradiction|discriminate]. }
@@ -301,48 +307,49 @@ Section Machine.
       { bsplit. destruct (m_stack m1) as [|v s]; [eapply like_stop; [eassumption|discriminate]|].
         pose proof (like_stack _ _ s L1) as L2. destruct (v =? 0).
         - destruct (like_move _ _ 1 L2) as [m3 [Hmv L3]]. rewrite Hmv. eapply like_good; [eassumption|].
-          replace (ip + 1 + 1) with (ip + 2) by lia. assumption.
+          rewrite add11. assumption.
         - eapply like_good; eassumption. }
       destruct (bc =? CODE_IF_ELSE) eqn:E4.
       { bsplit. unfold cell_is in H. destruct (znth seg (ip + 1)) as [t|] eqn:Et; [|discriminate].
         destruct (m_stack m1) as [|v s]; [eapply like_stop; [eassumption|discriminate]|].
         pose proof (like_stack _ _ s L1) as L2. destruct (v =? 0).
         - destruct (like_move _ _ 1 L2) as [m3 [Hmv L3]]. rewrite Hmv. eapply like_good; [eassumption|].
-          replace (ip + 1 + 1) with (ip + 2) by lia. assumption.
+          rewrite add11. assumption.
         - destruct (like_fetch _ _ _ L2 Et) as [m3 [Hf3 L3]]. rewrite Hf3.
           destruct (like_move _ _ 1 L3) as [m4 [Hmv L4]]. rewrite Hmv.
-          eapply like_call; [eassumption| |eassumption]. replace (ip + 1 + 1 + 1) with (ip + 3) by lia. assumption. }
+          eapply like_call; [eassumption| |eassumption]. rewrite add111. assumption. }
       destruct ((bc =? CODE_DO) || (bc =? CODE_DO_STEP)) eqn:E5.
       { destruct (m_stack m1) as [|start [|stp s]]; try (eapply like_stop; [eassumption|discriminate]).
         pose proof (like_stack _ _ s L1) as L2. destruct (zlen (m_dos (set_stack m1 s)) =? p_rec_max p);
           [eapply like_stop; [eassumption|discriminate]|].
-        cbn. split; [assumption|]. intros _. apply inv_mk; [exact Hs|].
-        cbn [m_frames m_dos m_targets m_ready set_frames set_dos set_stack m1]. rewrite ddepths_cons.
         pose proof (zlen_nonneg _ fr) as Hnn.
-        assert (Hd : abs_depth (if bc =? CODE_DO then depth (set_stack m1 s) else - depth (set_stack m1 s) - 1) = zlen fr + 1).
-        { unfold depth. cbn [m_frames set_stack set_frames m1]. rewrite zlen_cons. unfold abs_depth.
-          destruct (bc =? CODE_DO); [destruct (zlen fr + 1 <? 0) eqn:En; lia|destruct (- (zlen fr + 1) - 1 <? 0) eqn:En; lia]. }
-        rewrite Hd. eapply (T_do c p Hsegs); eassumption. }
+        remember (if bc =? CODE_DO then depth (set_stack m1 s) else - depth (set_stack m1 s) - 1) as d eqn:Ed.
+        assert (Hd : abs_depth d = zlen fr + 1).
+        { subst d. unfold depth. cbn [m_frames set_stack set_frames m1]. rewrite zlen_cons. unfold abs_depth.
+          clear - Hnn. destruct (bc =? CODE_DO); [destruct (zlen fr + 1 <? 0) eqn:En; lia|destruct (- (zlen fr + 1) - 1 <? 0) eqn:En; lia]. }
+        cbn [good continue]. split; [assumption|]. intros _. apply inv_mk; [exact Hs|].
+        cbn [m_frames m_dos m_targets m_ready set_frames set_dos set_stack m1]. rewrite ddepths_cons, Hd.
+        eapply (T_do c p Hsegs); eassumption. }
       destruct (bc =? CODE_AGAIN) eqn:E6.
       { destruct (like_move _ _ (-2) L1) as [m3 [Hmv L3]]. rewrite Hmv. eapply like_good; [eassumption|].
-        replace (ip + 1 + -2) with (ip - 1) by lia. assumption. }
+        rewrite add1m2. assumption. }
       destruct (bc =? CODE_UNTIL) eqn:E7.
       { bsplit. destruct (m_stack m1) as [|v s]; [eapply like_stop; [eassumption|discriminate]|].
         pose proof (like_stack _ _ s L1) as L2. destruct (v =? 0).
         - destruct (like_move _ _ (-2) L2) as [m3 [Hmv L3]]. rewrite Hmv. eapply like_good; [eassumption|].
-          replace (ip + 1 + -2) with (ip - 1) by lia. assumption.
+          rewrite add1m2. assumption.
         - eapply like_good; eassumption. }
       destruct (bc =? CODE_WHILE) eqn:E8.
       { bsplit. unfold cell_is in H. destruct (znth seg (ip + 1)) as [t|] eqn:Et; [|discriminate].
         destruct (m_stack m1) as [|v s]; [eapply like_stop; [eassumption|discriminate]|].
         pose proof (like_stack _ _ s L1) as L2. destruct (v =? 0).
         - destruct (like_move _ _ 1 L2) as [m3 [Hmv L3]]. rewrite Hmv. eapply like_good; [eassumption|].
-          replace (ip + 1 + 1) with (ip + 2) by lia. assumption.
+          rewrite add11. assumption.
         - destruct (like_fetch _ _ _ L2 Et) as [m3 [Hf3 L3]]. rewrite Hf3.
           destruct (like_move _ _ (-3) L3) as [m4 [Hmv L4]]. rewrite Hmv.
-          eapply like_call; [eassumption| |eassumption]. replace (ip + 1 + 1 + -3) with (ip - 1) by lia. assumption. }
+          eapply like_call; [eassumption| |eassumption]. rewrite add11m3. assumption. }
       (* instructions with one argument cell *)
-      assert (Harg : forall a, znth seg (ip + 1) = Some a -> memz (ip + 2) (s_B sw') = true ->
+      assert (Harg : forall a, znth seg (ip + 1) = Some a -> memz (ip + 2) (s_B sw) = true ->
                 (bc = CODE_LITERAL \/
                  ((bc = CODE_PUT \/ bc = CODE_INC \/ bc = CODE_GET) /\ in_range a (n_vars p) = true) \/
                  ((bc = CODE_LEN_INPUT \/ bc = CODE_POS \/ bc = CODE_END \/ bc = CODE_SEEK \/ bc = CODE_SKIP) /\
@@ -351,7 +358,7 @@ Section Machine.
                   in_range a (n_outs p) = true)) -> good (exec_builtin p e m1 bc)).
       { intros a Ea HB Hcl. destruct L1 as [A L1'].
         pose proof (builtin_arg_gres p e m1 w (ip + 1) fr seg a bc A Hsg Ea Hs Hcl) as G.
-        eapply like_gres; [|exact HB|exact G]. replace (ip + 2) with (ip + 1 + 1) by lia. repeat split; reflexivity. }
+        eapply like_gres; [|exact HB|exact G]. rewrite <- add11. repeat split; reflexivity. }
       assert (Hfold : forall X, good (exec_builtin p e m1 bc) -> exec_builtin p e m1 bc = X -> good X) by (intros; subst; assumption).
       destruct ((bc =? CODE_PUT) || (bc =? CODE_INC) || (bc =? CODE_GET)) eqn:E9.
       { bsplit. unfold cell_is in H. destruct (znth seg (ip + 1)) as [a|] eqn:Ea; [|discriminate].
